@@ -122,11 +122,41 @@ def check_store(ctx, doc, path, nrec, nsamples, expect_index):
         ctx.fail(doc, dict(problem=pr), "produced store is not self-consistent: " + pr)
 
 
+def many_contigs(ctx):
+    """headers that declare more contigs than an int8 / int16 index holds (129..256, 32769+ is too slow here)"""
+    from bio2zarr import vcf2zarr
+
+    r = ctx.rnd
+    for nc in (r.randint(129, 256), 195, 128, 127):
+        d = os.path.join(ctx.work, f"c02_many_{nc}")
+        os.makedirs(d, exist_ok=True)
+        try:
+            hdr = [f"##contig=<ID=k{j},length=1000>" for j in range(nc)] + ['##FILTER=<ID=PASS,Description="p">',
+                   '##INFO=<ID=DP,Number=1,Type=Integer,Description="d">', '##FORMAT=<ID=GT,Number=1,Type=String,Description="g">']
+            used = sorted(r.sample(range(nc), 4)) + [nc - 1]
+            recs = [f"k{j}\t{10 + i}\t.\tA\tT\t.\tPASS\tDP={i}\tGT\t0/1\t1|1" for j in sorted(set(used)) for i in range(2)]
+            p = vcfgen.make_indexed(d, "in", vcfgen.vcf_text(hdr, recs, ("s0", "s1")), kind=r.choice(["tbi", "csi"]))
+            out = os.path.join(d, "o.vcz")
+            doc = dict(special="many-contigs", contigs=nc, records=len(recs))
+            ctx.case(doc, nontrivial=True)
+            ctx.count("many-contigs")
+            try:
+                vcf2zarr.convert([p], out, worker_processes=0)
+            except Exception as e:  # noqa: BLE001
+                ctx.fail(doc, dict(error=f"{type(e).__name__}: {e}"[:300]), "conversion failed")
+                continue
+            check_store(ctx, doc, out, len(recs), 2, expect_index=True)
+            ctx.traces_validated += 1
+        finally:
+            shutil.rmtree(d, ignore_errors=True)
+
+
 def run(ctx):
     from bio2zarr import vcf2zarr
     from bio2zarr.vcf2zarr import icf as icf_mod
     from bio2zarr.vcf2zarr import vcz
 
+    many_contigs(ctx)
     r = ctx.rnd
     for i in range(ctx.n(60, 600)):
         seed = ctx.seed * 11 + 70000 + i
